@@ -91,3 +91,9 @@ package freelist
 //@   loop 0 invariant event("call:freelist.FreeList.flushBlock") == $idx && work == 12 * $idx
 //@ func (cp *FreeList) Sync() (err error)
 //@   trusted fsync of the freelist file: no effect on modelled state
+
+// Open as seen by package store: the freelist holds one open file.
+//@ func Open(path string) (fl *FreeList, err error)  property C17
+//@   fresh fl
+//@   ensures err == nil ==> fl != nil && fl.file != nil && fl.file.$open && fresh(fl.file) && fl.writer != nil && !fl.$pending
+//@   ensures err != nil ==> fl == nil
